@@ -82,6 +82,11 @@ func init() {
 	// ECDSA layer (int mode): big integers are ghost mathematical values; the curves are two constant interface values;
 	// ecdsaEq is the ECDSA verification equation of the standard library (on the leftmost bits of the digest), ecdsaSigOf
 	// what crypto/ecdsa.Sign returns, pubOf the public point of a private scalar, hkdfSha256 the HKDF-SHA256 output.
+	// treeOK(n, len): well-formed aggregation tree of the batch verification (see foldTheory)
+	Theory["treeOK"] = TheoryFn{SMT: "treeOK", HeapArg: "Ptr", Ret: "Bool", RetT: types.Typ[types.Bool]}
+	Theory["treeOKU"] = TheoryFn{SMT: "treeOKU", HeapArg: "Ptr", Ret: "Bool", RetT: types.Typ[types.Bool]}
+	// rnd(d, k): byte k of the d-th draw from the system's random source (crypto/rand)
+	Theory["rnd"] = TheoryFn{SMT: "rnd", Ret: "Int", RetT: types.Typ[types.Uint8]}
 	Theory["benat"] = TheoryFn{SMT: "benat", HeapArg: "byte", Ret: "Int", RetT: typInt}
 	Theory["be32v"] = TheoryFn{SMT: "be32v", HeapArg: "byte", Ret: "Int", RetT: typInt}
 	Theory["p256c"] = TheoryFn{SMT: "p256c", Ret: "Iface"}
@@ -360,6 +365,7 @@ func ecdsaTheory(hs string) string {
 		nS256 = "115792089237316195423570985008687907852837564279074904382605163141518161494337"
 		pS256 = "115792089237316195423570985008687907853269984665640564039457584007908834671663"
 	)
+	b.WriteString("(declare-fun rnd (Int Int) Int)\n(assert (forall ((d Int) (k Int)) (! (and (<= 0 (rnd d k)) (<= (rnd d k) 255)) :pattern ((rnd d k)))))\n")
 	b.WriteString("(declare-fun benatA ((Array Int Int) Int Int) Int)\n")
 	fmt.Fprintf(&b, "(define-fun benat ((h %s) (s Slice)) Int (ite (= (sl.len s) 32) (be32 h s) (ite (= (sl.len s) 0) 0 (benatA (select h (p.obj (sl.ptr s))) (p.off (sl.ptr s)) (sl.len s)))))\n", hs)
 	b.WriteString("(assert (forall ((a (Array Int Int)) (o Int) (n Int)) (! (<= 0 (benatA a o n)) :pattern ((benatA a o n)))))\n")
